@@ -265,6 +265,12 @@ CHECKS = {
 NOT_YET = {}
 
 
+# extension areas (not properties): id -> one-line description, see DESIGN.md section 11
+EXTENSIONS = {
+    'X02': 'command-template substitution of custom_target/generator/configure_file and Makefile-style depfiles (specs/cmdsubst)',
+}
+
+
 def main() -> None:
     props = [json.loads(l) for l in (VERIF / 'properties.jsonl').read_text().splitlines() if l.strip()]
     na_path = VERIF / 'tools' / 'not_applicable.json'
@@ -306,6 +312,10 @@ def main() -> None:
              'serves_properties': [c['property_id'] for c in checks],
              'kind_free_text': 'explicit TLA+ specifications (specs/*) model-checked with TLC; Python harnesses (harness/*) replay '
                                'spec behaviours into the real meson code and validate recorded executions of the real code against trace specs'},
+            {'name': 'extension-areas', 'path': '/verif/tools/run_extended.sh',
+             'serves_properties': [],
+             'kind_free_text': 'specification growth beyond the listed properties (DESIGN.md section 11): ' + '; '.join(
+                 f'{k} {v}' for k, v in sorted(EXTENSIONS.items())) + '. Same method and machinery; run one with ./check X0N --tier quick|thorough'},
         ],
         'checks': checks,
         'not_applicable': na,
